@@ -353,7 +353,7 @@ def repeats_fluent_arg(terms, params, args, objs):
     return False
 
 
-def gen_case(seed, cid, n_states=4, n_calls=3, **kw):
+def gen_case(seed, cid, n_states=4, n_calls=3, ground_only=False, **kw):
     rng = random.Random(seed * 1000003 + cid)
     params = rng.choice(PARAM_SETS)
     g = Gen(rng, params, **kw)
@@ -361,6 +361,11 @@ def gen_case(seed, cid, n_states=4, n_calls=3, **kw):
     objs = list(OBJS) if rng.random() < 0.7 else OBJS[:3]
     states = [random_state(rng, objs) for _ in range(n_states)]
     calls = []
+    if ground_only:
+        # grounding only: every kind of call, repeated objects and constants included
+        for args in calls_for(rng, params, objs, n_calls * 3):
+            calls.append({"act": "act", "args": args, "s": 0, "mode": "ground"})
+        return {"id": cid, "tree": tree, "objs": objs, "states": states[:1], "calls": calls}
     terms = fluent_terms(tree["c"][-1], [])
     for args in calls_for(rng, params, objs, n_calls * 2):
         # grounding a fluent onto a repeated object is a known finding of its own
